@@ -1,7 +1,10 @@
 import AbraModel.Lib.Sort
+import AbraModel.Lib.SortLoops
 import AbraModel.Drv.Util
 /- Driver for M11 sort: `sort <cmp> e1 e2 …`; elements are `key,tag` pairs (plain `key` for cmp = int).
-   Answer: the sorted elements in the same spelling, `-` for the empty array. -/
+   Answer: the sorted elements in the same spelling, `-` for the empty array.
+   The driver runs the index-level model `sortByA` (array, indices, scratch array, in-place writes);
+   `C25_sort_by_index_level` proves it equal to the list-level `sortBy` the property theorems are about. -/
 namespace Abra.Drv.SortDrv
 open Abra.Lib
 
@@ -26,21 +29,21 @@ def showInts (l : List Int) : String :=
 
 /-- the comparators the harness passes to `sort_by` / `sort_by_key`, as the Abra lambdas spell them -/
 def pairCmp? : String → Option (List (Int × Int) → List (Int × Int))
-  | "lex" => some (sort lexLe)
-  | "le" => some (sortBy fun a b => decide (a.1 ≤ b.1))
-  | "ge" => some (sortBy fun a b => decide (a.1 ≥ b.1))
-  | "key" => some (sortByKey (fun a b : Int => decide (a ≤ b)) (fun p => p.1))
-  | "keymod" => some (sortByKey (fun a b : Int => decide (a ≤ b)) (fun p => p.1 % 5))
-  | "lt" => some (sortBy fun a b => decide (a.1 < b.1))
-  | "tt" => some (sortBy fun _ _ => true)
-  | "ff" => some (sortBy fun _ _ => false)
-  | "cyc" => some (sortBy fun a b => (a.1 % 3 == b.1 % 3) || ((a.1 % 3 + 1) % 3 == b.1 % 3))
+  | "lex" => some (sortByA lexLe)
+  | "le" => some (sortByA fun a b => decide (a.1 ≤ b.1))
+  | "ge" => some (sortByA fun a b => decide (a.1 ≥ b.1))
+  | "key" => some (sortByA fun a b => decide (a.1 ≤ b.1))         -- sort_by_key(k) = sort_by(key(a) <= key(b))
+  | "keymod" => some (sortByA fun a b => decide (a.1 % 5 ≤ b.1 % 5))
+  | "lt" => some (sortByA fun a b => decide (a.1 < b.1))
+  | "tt" => some (sortByA fun _ _ => true)
+  | "ff" => some (sortByA fun _ _ => false)
+  | "cyc" => some (sortByA fun a b => (a.1 % 3 == b.1 % 3) || ((a.1 % 3 + 1) % 3 == b.1 % 3))
   | _ => none
 
 def handleSort : List String → String
   | "int" :: elems =>
     match parseAll? parseInt? elems with
-    | some l => showInts (sort (fun a b : Int => decide (a ≤ b)) l)
+    | some l => showInts (sortByA (fun a b : Int => decide (a ≤ b)) l)
     | none => "bad-op"
   | cmp :: elems =>
     match pairCmp? cmp, parseAll? parsePair? elems with
